@@ -58,17 +58,17 @@ theorem tables_ok_eom : TablesOk Generated.eom := by decide +kernel
 theorem tables_ok_layout : TablesOk Generated.layout := by decide +kernel
 theorem tables_ok_device : TablesOk Generated.device := by decide +kernel
 
-/-- `VirtualDevice` satisfies the side condition except for `dmm_objects`: the encoder drops it
-when *empty* while the decoder falls back to the class default `(DMM(),)` (finding
-"virtual-device-empty-dmm"). -/
-theorem tables_ok_virtual_device : TablesOk Generated.virtualDevice ["dmm_objects"] := by
+/-- `VirtualDevice` satisfies the side condition without exemption (since the repair of finding
+C17-F1 an empty `dmm_objects` is written out instead of being dropped in favour of the decoder's
+class default `(DMM(),)`; `empty_dmm_counterexample` below keeps the shape of that defect). -/
+theorem tables_ok_virtual_device : TablesOk Generated.virtualDevice := by
   decide +kernel
 
 /-- All channel classes are fine and the decoder's `basis` / `bottom_detuning` dispatch picks the
 class that was encoded. -/
 theorem channel_tables_ok : channelTablesOk Generated.channels = true := by decide +kernel
 
-theorem device_tables_ok : deviceTablesOk Generated.devices ["dmm_objects"] = true := by
+theorem device_tables_ok : deviceTablesOk Generated.devices [] = true := by
   decide +kernel
 
 /-- `_PARAM_TO_NOISE_TYPE` inverts `_NOISE_TYPE_PARAMS`, `leakage` is governed by `with_leakage`
@@ -95,10 +95,9 @@ theorem device_roundtrip_physical (noise : Sub) {r : Record}
     (deviceSub Generated.devices noise).Good (.obj ((classKey, .str "Device") :: r)) :=
   deviceSub_good_physical device_tables_ok noise R
 
-/-- **Virtual devices** round-trip, provided `dmm_objects` is not empty (see
-`tables_ok_virtual_device`). -/
+/-- **Virtual devices** (with or without DMM channels) round-trip. -/
 theorem device_roundtrip_virtual (noise : Sub) {r : Record}
-    (R : DeviceRecOk Generated.devices noise Generated.virtualDevice ["dmm_objects"] r) :
+    (R : DeviceRecOk Generated.devices noise Generated.virtualDevice [] r) :
     (deviceSub Generated.devices noise).Good (.obj ((classKey, .str "VirtualDevice") :: r)) :=
   deviceSub_good_virtual device_tables_ok noise R
 
@@ -197,7 +196,7 @@ def deviceDom (v : Value) : Bool :=
   | .obj ((ck, .str cls) :: r) =>
     ck == classKey &&
     (if cls = "VirtualDevice" then
-       deviceRecOkB Generated.devices (noiseSub Generated.noise) Generated.virtualDevice ["dmm_objects"] r
+       deviceRecOkB Generated.devices (noiseSub Generated.noise) Generated.virtualDevice [] r
      else if cls = "Device" then
        deviceRecOkB Generated.devices (noiseSub Generated.noise) Generated.device [] r
      else false)
@@ -239,8 +238,8 @@ example : noiseDecode frozenNoise (noiseEncode (noiseInit frozenNoise (argsOf fr
 (frozen so that a later fix of the code does not turn a documented finding into a build failure) -/
 
 /-- The same-default rule of `TablesOk` is necessary.  A one-field class whose encoder drops the
-field when it is *empty* while the decoder falls back to a *non-empty* default — the shape of
-`VirtualDevice.dmm_objects` — does not round-trip. -/
+field when it is *empty* while the decoder falls back to a *non-empty* default — the shape
+`VirtualDevice.dmm_objects` had before the repair of finding C17-F1 — does not round-trip. -/
 def dmmShape : Tables where
   cls := "V"
   fields := [{ name := "dmm_objects", init := true, dflt := some (.list [.str "DMM()"]) }]
